@@ -19,7 +19,7 @@ RULE = ("all histories of <= D top-level ops over the ops enabled in the current
         "so all sentences are tried), move_object(\"<name>\") by x with a destination that is not loaded (loaded inside the efun; its "
         "create() chain runs the hook scripts), loading a|b through call_other / first_inventory / tell_room by name, present(\"thing\", x) "
         "(id() applied in every item, scripted), [shape parts: O->poke(kill(O)), tell_object(O, kill(O)), present(O, kill(O)->env), "
-        "take(O, kill(O)): a later argument destructs an object pending on the stack with an older reference in a local], tick (real call_heart_beat: heart beats + call_out sweep), remove_destructed_objects} from 4 "
+        "take(O, kill(O)): a later argument destructs an object pending on the stack with an older reference in a local; call_out carrying O as first/second extra argument to an efun-pointer callback (: call_other :) or a named callback, O possibly destructed before it is due], tick (real call_heart_beat: heart beats + call_out sweep), remove_destructed_objects} from 4 "
         "initial worlds (empty / 3 objects flat / chain c in a in b with a living / two siblings in a, one living with timers); "
         "population <= 4 (blueprints a b, 2 clones; a destructed blueprint may be loaded again under its name); deviations "
         "(budget B) decided at the entry of every create/init/move_or_destruct/verb/heart_beat/call_out-callback/id hook: the hook's script {error(), move(any -> "
@@ -49,12 +49,12 @@ def run(ck):
     ex = build(ck)
     P, A = ex["h_c08"], ex["h_c08a"]
     if ck.tier == "quick":
-        ck.explore(P, ["--depth=3", "--ohash=2"], "d3-b1-hash2", budget=1, deadline_s=110, jobs=JOBS)
-        ck.explore(P, ["--depth=2", "--ohash=2", "--init=2"], "d2-b2-hash2-world2", budget=2, min_budget=2, deadline_s=50, jobs=JOBS)
-        ck.explore(P, ["--depth=2", "--ohash=2", "--shapes=1"], "d2-b1-hash2-arg-shapes", budget=1, deadline_s=25, jobs=JOBS)
+        ck.explore(P, ["--depth=3", "--ohash=2"], "d3-b1-hash2", budget=1, deadline_s=105, jobs=JOBS)
+        ck.explore(P, ["--depth=2", "--ohash=2", "--init=2"], "d2-b2-hash2-world2", budget=2, min_budget=2, deadline_s=45, jobs=JOBS)
+        ck.explore(P, ["--depth=2", "--ohash=2", "--shapes=1"], "d2-b1-hash2-arg-shapes", budget=1, deadline_s=35, jobs=JOBS)
         ck.explore(P, ["--depth=2", "--ohash=3"], "d2-b0-hash4", budget=0, deadline_s=10, jobs=JOBS)
         ck.explore(P, ["--depth=2", "--ohash=0"], "d2-b0-hash-default", budget=0, deadline_s=10, jobs=JOBS)
-        ck.explore(A, ["--depth=2", "--ohash=2", "--init=3", "--shapes=1"], "d2-b1-hash2-world3-asan", budget=1, deadline_s=35, jobs=JOBS)
+        ck.explore(A, ["--depth=2", "--ohash=2", "--init=3"], "d2-b1-hash2-world3-asan", budget=1, deadline_s=40, jobs=JOBS)
     else:
         # sized for a heavily loaded machine (~1.9 M executions, deadlines sum < 40 min); ~10 min on an idle 16-core machine
         ck.explore(P, ["--depth=4", "--ohash=2"], "d4-b0-hash2", budget=0, deadline_s=60, jobs=JOBS)
